@@ -14,9 +14,13 @@ Local Open Scope Z_scope.
 
 Section Stmt.
 Context (ig : E.integ).
+(* the integration's term objects: any type T the model's terms embed in, with the equality test (`!=` on them) the
+   repeated-term logic uses (for the generic integration: the translated term classes and their translated __eq__) *)
+Context {T : Type} (inj : term -> T) (teqb : T -> T -> bool).
+Context (H_teqb : forall a b, teqb (inj a) (inj b) = term_eqb a b).
 (* what the integration's dispatcher does *)
-Context (enc_spo : term -> Z -> pbval str -> TermEncoder SN -> outcome (list (pbval str)) * TermEncoder SN * pbval str).
-Context (enc_graph : term -> pbval str -> TermEncoder SN -> outcome (list (pbval str)) * TermEncoder SN * pbval str).
+Context (enc_spo : T -> Z -> pbval str -> TermEncoder SN -> outcome (list (pbval str)) * TermEncoder SN * pbval str).
+Context (enc_graph : T -> pbval str -> TermEncoder SN -> outcome (list (pbval str)) * TermEncoder SN * pbval str).
 (* how it writes an encoded term into slot i of a statement message *)
 Context (put : Z -> wterm -> pbval str -> pbval str).
 
@@ -51,14 +55,14 @@ Definition building (i : Z) (stmt : pbval str) : Prop :=
             else put_opt 2 wo (put_opt 1 wp (put_opt 0 ws (PMsg n [])))).
 
 Definition sim_spo : Prop := forall tm i stmt g m, Rt g m -> (0 <= i <= 2) -> building i stmt ->
-  match enc_spo tm i stmt g, E.encode_spo_term ig tm m with
+  match enc_spo (inj tm) i stmt g, E.encode_spo_term ig tm m with
   | (Val rows, g', stmt'), Ok (m', mrows, w) => rows = map rmsg mrows /\ Rt g' m' /\ stmt' = put i w stmt
   | (Exn _, _, _), Err _ => True
   | _, _ => False
   end.
 
 Definition sim_graph : Prop := forall tm stmt g m, Rt g m -> building 3 stmt ->
-  match enc_graph tm stmt g, E.encode_graph_term ig tm m with
+  match enc_graph (inj tm) stmt g, E.encode_graph_term ig tm m with
   | (Val rows, g', stmt'), Ok (m', mrows, w) => rows = map rmsg mrows /\ Rt g' m' /\ stmt' = put 3 w stmt
   | (Exn _, _, _), Err _ => True
   | _, _ => False
@@ -66,26 +70,27 @@ Definition sim_graph : Prop := forall tm stmt g m, Rt g m -> building 3 stmt ->
 
 Context (H_spo : sim_spo) (H_graph : sim_graph).
 
-Definition rlist (rp : E.repeated) : list (option term) := [E.r_s rp; E.r_p rp; E.r_o rp; E.r_g rp].
+Notation oi := (option_map inj).
+Definition rlist (rp : E.repeated) : list (option T) := [oi (E.r_s rp); oi (E.r_p rp); oi (E.r_o rp); oi (E.r_g rp)].
 
 Lemma differs_is (prev : option term) (tm : term) :
-  negb (match prev with Some x_ => term_eqb x_ tm | None => false end) = E.differs prev tm.
-Proof. unfold E.differs. destruct prev as [p|]; reflexivity. Qed.
+  negb (match oi prev with Some x_ => teqb x_ (inj tm) | None => false end) = E.differs prev tm.
+Proof. unfold E.differs. destruct prev as [p|]; cbn [option_map]; [rewrite H_teqb|]; reflexivity. Qed.
 
 (* one slot of encode_spo, as the model does it, against the dispatcher *)
 Lemma slot_step (i : Z) (prev : option term) (tm : term) (stmt : pbval str) g m : Rt g m -> (0 <= i <= 2) -> building i stmt ->
   match E.encode_slot ig prev tm m with
   | Ok (m', mrows, w, prev') =>
       if E.differs prev tm
-      then exists g' rows, enc_spo tm i stmt g = (Val rows, g', put_opt i w stmt) /\ rows = map rmsg mrows /\ Rt g' m' /\ prev' = Some tm
+      then exists g' rows, enc_spo (inj tm) i stmt g = (Val rows, g', put_opt i w stmt) /\ rows = map rmsg mrows /\ Rt g' m' /\ prev' = Some tm
       else m' = m /\ mrows = [] /\ w = None /\ prev' = prev
-  | Err _ => E.differs prev tm = true /\ exists e g' s', enc_spo tm i stmt g = (Exn e, g', s')
+  | Err _ => E.differs prev tm = true /\ exists e g' s', enc_spo (inj tm) i stmt g = (Exn e, g', s')
   end.
 Proof.
   intros HR Hi Hb. unfold E.encode_slot.
   destruct (E.differs prev tm) eqn:Ed.
   - pose proof (H_spo tm i stmt g m HR Hi Hb) as H.
-    destruct (enc_spo tm i stmt g) as [[[rows|e] g'] stmt'];
+    destruct (enc_spo (inj tm) i stmt g) as [[[rows|e] g'] stmt'];
       destruct (E.encode_spo_term ig tm m) as [[[m' mrows] w]|e']; try contradiction; cbn [bind].
     + destruct H as (-> & HR' & ->). exists g', (map rmsg mrows).
       split; [reflexivity|]. split; [reflexivity|]. split; [exact HR' | reflexivity].
@@ -124,7 +129,7 @@ Lemma skipn3_nth (l : list term) :
   end.
 Proof. unfold E.nth_term. destruct l as [|a [|b [|c [|d l]]]]; cbn; auto. Qed.
 
-Notation gen_spo := (encode_spo SN term_eqb enc_spo).
+Notation gen_spo := (encode_spo SN teqb enc_spo).
 
 Ltac bld n a b := exists n, a, b, (@None wterm); split; [assumption | reflexivity].
 
@@ -143,58 +148,58 @@ Ltac rows_eq := rewrite ?map_app; cbn [map app]; rewrite ?app_nil_r; rewrite <- 
 
 Lemma tie_encode_spo (terms : list term) (rp : E.repeated) (n : string) g m : let stmt := PMsg n [] in
   In n ["RdfTriple"; "RdfQuad"; "RdfGraphStart"]%string -> Rt g m ->
-  match gen_spo terms g (rlist rp) stmt, spo_result terms rp m with
+  match gen_spo (map inj terms) g (rlist rp) stmt, spo_result terms rp m with
   | (Val rows, terms', g', rl', stmt'), Ok (m', rp', mrows, ws, wp, wo) =>
-      rows = map rmsg mrows /\ terms' = skipn 3 terms /\ Rt g' m' /\ rl' = rlist rp' /\
+      rows = map rmsg mrows /\ terms' = map inj (skipn 3 terms) /\ Rt g' m' /\ rl' = rlist rp' /\
       stmt' = put_opt 2 wo (put_opt 1 wp (put_opt 0 ws stmt))
   | (Exn _, _, _, _, _), Err _ => True
   | _, _ => False
   end.
 Proof.
   intros stmt Hn HR. unfold encode_spo, spo_result, rlist.
-  destruct terms as [|s terms]; [exact I|]. cbn [E.nth_term nth_error bind].
-  change (seq_get [E.r_s rp; E.r_p rp; E.r_o rp; E.r_g rp] 0) with (@Val (option term) (E.r_s rp)). cbv beta iota.
+  destruct terms as [|s terms]; [exact I|]. cbn [map E.nth_term nth_error bind].
+  change (seq_get [oi (E.r_s rp); oi (E.r_p rp); oi (E.r_o rp); oi (E.r_g rp)] 0) with (@Val (option T) (oi (E.r_s rp))). cbv beta iota.
   rewrite differs_is.
   use_slot 0 (E.r_s rp) s stmt g m HR ltac:(bld n (@None wterm) (@None wterm)); cbn [bind]; try exact I.
   - (* subject encoded *)
-    change (seq_set [E.r_s rp; E.r_p rp; E.r_o rp; E.r_g rp] 0 (Some s)) with (@Val (list (option term)) [Some s; E.r_p rp; E.r_o rp; E.r_g rp]).
-    cbv beta iota. destruct terms as [|p terms]; [exact I|]. cbn [E.nth_term nth_error bind].
-    change (seq_get [Some s; E.r_p rp; E.r_o rp; E.r_g rp] 1) with (@Val (option term) (E.r_p rp)). cbv beta iota.
+    change (seq_set [oi (E.r_s rp); oi (E.r_p rp); oi (E.r_o rp); oi (E.r_g rp)] 0 (Some (inj s))) with (@Val (list (option T)) [Some (inj s); oi (E.r_p rp); oi (E.r_o rp); oi (E.r_g rp)]).
+    cbv beta iota. destruct terms as [|p terms]; [exact I|]. cbn [map E.nth_term nth_error bind].
+    change (seq_get [Some (inj s); oi (E.r_p rp); oi (E.r_o rp); oi (E.r_g rp)] 1) with (@Val (option T) (oi (E.r_p rp))). cbv beta iota.
     rewrite differs_is.
     use_slot 1 (E.r_p rp) p (put_opt 0 w stmt) g' m' HR' ltac:(bld n w (@None wterm)); cbn [bind]; try exact I.
-    + change (seq_set [Some s; E.r_p rp; E.r_o rp; E.r_g rp] 1 (Some p)) with (@Val (list (option term)) [Some s; Some p; E.r_o rp; E.r_g rp]).
-      cbv beta iota. destruct terms as [|o terms]; [exact I|]. cbn [E.nth_term nth_error bind].
-      change (seq_get [Some s; Some p; E.r_o rp; E.r_g rp] 2) with (@Val (option term) (E.r_o rp)). cbv beta iota.
+    + change (seq_set [Some (inj s); oi (E.r_p rp); oi (E.r_o rp); oi (E.r_g rp)] 1 (Some (inj p))) with (@Val (list (option T)) [Some (inj s); Some (inj p); oi (E.r_o rp); oi (E.r_g rp)]).
+      cbv beta iota. destruct terms as [|o terms]; [exact I|]. cbn [map E.nth_term nth_error bind].
+      change (seq_get [Some (inj s); Some (inj p); oi (E.r_o rp); oi (E.r_g rp)] 2) with (@Val (option T) (oi (E.r_o rp))). cbv beta iota.
       rewrite differs_is.
       use_slot 2 (E.r_o rp) o (put_opt 1 w0 (put_opt 0 w stmt)) g'0 m'0 HR'0 ltac:(bld n w w0); cbn [bind]; try exact I.
-      * change (seq_set [Some s; Some p; E.r_o rp; E.r_g rp] 2 (Some o)) with (@Val (list (option term)) [Some s; Some p; Some o; E.r_g rp]).
+      * change (seq_set [Some (inj s); Some (inj p); oi (E.r_o rp); oi (E.r_g rp)] 2 (Some (inj o))) with (@Val (list (option T)) [Some (inj s); Some (inj p); Some (inj o); oi (E.r_g rp)]).
         cbv iota. split; [rows_eq|]. split; [reflexivity|]. split; [assumption|]. split; reflexivity.
       * split; [rows_eq|]. split; [reflexivity|]. split; [assumption|]. split; reflexivity.
-    + destruct terms as [|o terms]; [exact I|]. cbn [E.nth_term nth_error bind].
-      change (seq_get [Some s; E.r_p rp; E.r_o rp; E.r_g rp] 2) with (@Val (option term) (E.r_o rp)). cbv beta iota.
+    + destruct terms as [|o terms]; [exact I|]. cbn [map E.nth_term nth_error bind].
+      change (seq_get [Some (inj s); oi (E.r_p rp); oi (E.r_o rp); oi (E.r_g rp)] 2) with (@Val (option T) (oi (E.r_o rp))). cbv beta iota.
       rewrite differs_is.
       use_slot 2 (E.r_o rp) o (put_opt 0 w stmt) g' m' HR' ltac:(bld n w (@None wterm)); cbn [bind]; try exact I.
-      * change (seq_set [Some s; E.r_p rp; E.r_o rp; E.r_g rp] 2 (Some o)) with (@Val (list (option term)) [Some s; E.r_p rp; Some o; E.r_g rp]).
+      * change (seq_set [Some (inj s); oi (E.r_p rp); oi (E.r_o rp); oi (E.r_g rp)] 2 (Some (inj o))) with (@Val (list (option T)) [Some (inj s); oi (E.r_p rp); Some (inj o); oi (E.r_g rp)]).
         cbv iota. split; [rows_eq|]. split; [reflexivity|]. split; [assumption|]. split; reflexivity.
       * split; [rows_eq|]. split; [reflexivity|]. split; [assumption|]. split; reflexivity.
   - (* subject repeated *)
-    destruct terms as [|p terms]; [exact I|]. cbn [E.nth_term nth_error bind].
-    change (seq_get [E.r_s rp; E.r_p rp; E.r_o rp; E.r_g rp] 1) with (@Val (option term) (E.r_p rp)). cbv beta iota.
+    destruct terms as [|p terms]; [exact I|]. cbn [map E.nth_term nth_error bind].
+    change (seq_get [oi (E.r_s rp); oi (E.r_p rp); oi (E.r_o rp); oi (E.r_g rp)] 1) with (@Val (option T) (oi (E.r_p rp))). cbv beta iota.
     rewrite differs_is.
     use_slot 1 (E.r_p rp) p stmt g m HR ltac:(bld n (@None wterm) (@None wterm)); cbn [bind]; try exact I.
-    + change (seq_set [E.r_s rp; E.r_p rp; E.r_o rp; E.r_g rp] 1 (Some p)) with (@Val (list (option term)) [E.r_s rp; Some p; E.r_o rp; E.r_g rp]).
-      cbv beta iota. destruct terms as [|o terms]; [exact I|]. cbn [E.nth_term nth_error bind].
-      change (seq_get [E.r_s rp; Some p; E.r_o rp; E.r_g rp] 2) with (@Val (option term) (E.r_o rp)). cbv beta iota.
+    + change (seq_set [oi (E.r_s rp); oi (E.r_p rp); oi (E.r_o rp); oi (E.r_g rp)] 1 (Some (inj p))) with (@Val (list (option T)) [oi (E.r_s rp); Some (inj p); oi (E.r_o rp); oi (E.r_g rp)]).
+      cbv beta iota. destruct terms as [|o terms]; [exact I|]. cbn [map E.nth_term nth_error bind].
+      change (seq_get [oi (E.r_s rp); Some (inj p); oi (E.r_o rp); oi (E.r_g rp)] 2) with (@Val (option T) (oi (E.r_o rp))). cbv beta iota.
       rewrite differs_is.
       use_slot 2 (E.r_o rp) o (put_opt 1 w stmt) g' m' HR' ltac:(bld n (@None wterm) w); cbn [bind]; try exact I.
-      * change (seq_set [E.r_s rp; Some p; E.r_o rp; E.r_g rp] 2 (Some o)) with (@Val (list (option term)) [E.r_s rp; Some p; Some o; E.r_g rp]).
+      * change (seq_set [oi (E.r_s rp); Some (inj p); oi (E.r_o rp); oi (E.r_g rp)] 2 (Some (inj o))) with (@Val (list (option T)) [oi (E.r_s rp); Some (inj p); Some (inj o); oi (E.r_g rp)]).
         cbv iota. split; [rows_eq|]. split; [reflexivity|]. split; [assumption|]. split; reflexivity.
       * split; [rows_eq|]. split; [reflexivity|]. split; [assumption|]. split; reflexivity.
-    + destruct terms as [|o terms]; [exact I|]. cbn [E.nth_term nth_error bind].
-      change (seq_get [E.r_s rp; E.r_p rp; E.r_o rp; E.r_g rp] 2) with (@Val (option term) (E.r_o rp)). cbv beta iota.
+    + destruct terms as [|o terms]; [exact I|]. cbn [map E.nth_term nth_error bind].
+      change (seq_get [oi (E.r_s rp); oi (E.r_p rp); oi (E.r_o rp); oi (E.r_g rp)] 2) with (@Val (option T) (oi (E.r_o rp))). cbv beta iota.
       rewrite differs_is.
       use_slot 2 (E.r_o rp) o stmt g m HR ltac:(bld n (@None wterm) (@None wterm)); cbn [bind]; try exact I.
-      * change (seq_set [E.r_s rp; E.r_p rp; E.r_o rp; E.r_g rp] 2 (Some o)) with (@Val (list (option term)) [E.r_s rp; E.r_p rp; Some o; E.r_g rp]).
+      * change (seq_set [oi (E.r_s rp); oi (E.r_p rp); oi (E.r_o rp); oi (E.r_g rp)] 2 (Some (inj o))) with (@Val (list (option T)) [oi (E.r_s rp); oi (E.r_p rp); Some (inj o); oi (E.r_g rp)]).
         cbv iota. split; [rows_eq|]. split; [reflexivity|]. split; [assumption|]. split; reflexivity.
       * split; [reflexivity|]. split; [reflexivity|]. split; [assumption|]. split; reflexivity.
 Qed.
@@ -202,9 +207,9 @@ Qed.
 (* encode_triple: a new statement, the three slots, then the statement row after the entry rows.  The
    iterator is left after the third term, the repeated terms are what the model keeps. *)
 Theorem source_encode_triple_is_model (terms : list term) (rp : E.repeated) g m : Rt g m ->
-  match encode_triple SN term_eqb enc_spo terms g (rlist rp), E.encode_triple ig terms m rp with
+  match encode_triple SN teqb enc_spo (map inj terms) g (rlist rp), E.encode_triple ig terms m rp with
   | (Val rows, terms', g', rl'), Ok (m', rp', mrows) =>
-      rows = map rmsg mrows /\ Rt g' m' /\ rl' = rlist rp' /\ terms' = skipn 3 terms
+      rows = map rmsg mrows /\ Rt g' m' /\ rl' = rlist rp' /\ terms' = map inj (skipn 3 terms)
   | (Exn _, _, _, _), Err _ => True
   | _, _ => False
   end.
@@ -235,15 +240,15 @@ Lemma gslot_step (prev : option term) (tm : term) (stmt : pbval str) g m : Rt g 
   match E.encode_gslot ig prev tm m with
   | Ok (m', mrows, w, prev') =>
       if E.differs prev tm
-      then exists g' rows, enc_graph tm stmt g = (Val rows, g', put_opt 3 w stmt) /\ rows = map rmsg mrows /\ Rt g' m' /\ prev' = Some tm
+      then exists g' rows, enc_graph (inj tm) stmt g = (Val rows, g', put_opt 3 w stmt) /\ rows = map rmsg mrows /\ Rt g' m' /\ prev' = Some tm
       else m' = m /\ mrows = [] /\ w = None /\ prev' = prev
-  | Err _ => E.differs prev tm = true /\ exists e g' s', enc_graph tm stmt g = (Exn e, g', s')
+  | Err _ => E.differs prev tm = true /\ exists e g' s', enc_graph (inj tm) stmt g = (Exn e, g', s')
   end.
 Proof.
   intros HR Hb. unfold E.encode_gslot.
   destruct (E.differs prev tm) eqn:Ed.
   - pose proof (H_graph tm stmt g m HR Hb) as H.
-    destruct (enc_graph tm stmt g) as [[[rows|e] g'] stmt'];
+    destruct (enc_graph (inj tm) stmt g) as [[[rows|e] g'] stmt'];
       destruct (E.encode_graph_term ig tm m) as [[[m' mrows] w]|e']; try contradiction; cbn [bind].
     + destruct H as (-> & HR' & ->). exists g', (map rmsg mrows).
       split; [reflexivity|]. split; [reflexivity|]. split; [exact HR' | reflexivity].
@@ -252,9 +257,9 @@ Proof.
 Qed.
 
 Theorem source_encode_quad_is_model (terms : list term) (rp : E.repeated) g m : Rt g m ->
-  match encode_quad SN term_eqb enc_spo enc_graph terms g (rlist rp), E.encode_quad ig terms m rp with
+  match encode_quad SN teqb enc_spo enc_graph (map inj terms) g (rlist rp), E.encode_quad ig terms m rp with
   | (Val rows, terms', g', rl'), Ok (m', rp', mrows) =>
-      rows = map rmsg mrows /\ Rt g' m' /\ rl' = rlist rp' /\ terms' = skipn 4 terms
+      rows = map rmsg mrows /\ Rt g' m' /\ rl' = rlist rp' /\ terms' = map inj (skipn 4 terms)
   | (Exn _, _, _, _), Err _ => True
   | _, _ => False
   end.
@@ -287,16 +292,16 @@ Proof.
   (* the graph slot *)
   cbv beta iota.
   pose proof (skipn3_nth terms) as Hn.
-  destruct (skipn 3 terms) as [|gt rest]; [rewrite Hn; cbn [bind]; exact I|].
-  destruct Hn as [Hn ->]. rewrite Hn. cbn [bind].
-  change (seq_get (rlist rp') 3) with (@Val (option term) (E.r_g rp')). cbv beta iota.
+  destruct (skipn 3 terms) as [|gt rest]; [rewrite Hn; cbn [bind map]; exact I|].
+  destruct Hn as [Hn ->]. rewrite Hn. cbn [bind map].
+  change (seq_get (rlist rp') 3) with (@Val (option T) (oi (E.r_g rp'))). cbv beta iota.
   rewrite differs_is, Hg.
   pose proof (gslot_step (E.r_g rp) gt (put_opt 2 wo (put_opt 1 wp (put_opt 0 ws (PMsg "RdfQuad" [])))) g' m' HR'
                 ltac:(exists "RdfQuad"%string, ws, wp, wo; split; [right; left; reflexivity | reflexivity])) as Hs.
   destruct (E.encode_gslot ig (E.r_g rp) gt m') as [[[[m4 r4] wg] pg]|e4].
   - destruct (E.differs (E.r_g rp) gt) eqn:Ed.
     + destruct Hs as (g4 & rows4 & Hcall & -> & HR4 & ->). norm. rewrite Hcall. cbn [bind].
-      change (seq_set (rlist rp') 3 (Some gt)) with (@Val (list (option term)) [E.r_s rp'; E.r_p rp'; E.r_o rp'; Some gt]). cbv beta iota.
+      change (seq_set (rlist rp') 3 (Some (inj gt))) with (@Val (list (option T)) [oi (E.r_s rp'); oi (E.r_p rp'); oi (E.r_o rp'); Some (inj gt)]). cbv beta iota.
       split; [rewrite !map_app; rewrite <- app_assoc; reflexivity|]. split; [exact HR4|]. split; reflexivity.
     + destruct Hs as (-> & -> & -> & ->). cbn [bind].
       split; [rewrite map_app; reflexivity|]. split; [exact HR'|]. split; [|reflexivity].
